@@ -40,7 +40,12 @@ ASSUMPTIONS = [
 # how a Job/Project object is obtained (handle provenance); all of them must be ONE handle-equivalence class
 PROV_INIT, PROV_GET_ABS, PROV_GET_REL, PROV_CTOR_REL, PROV_CTOR_DOTDOT, PROV_CTOR_SYMLINK = range(6)
 PROVS = [PROV_INIT, PROV_GET_ABS, PROV_GET_REL, PROV_CTOR_REL, PROV_CTOR_REL, PROV_CTOR_DOTDOT, PROV_CTOR_SYMLINK]
-NCWD = 4   # chdir targets: 0 parent of the project, 1 project root, 2 workspace, 3 "/"
+# chdir targets, ALL inside the case's scratch directory: 0 parent of the project, 1 project root, 2 workspace,
+# 3 an empty sibling directory `elsewhere`, 4 the deeper `elsewhere/x/y`.  The project sits three levels below the
+# case directory (d1/d2/d3/p): a relative path computed in the deepest cwd has three '..' components, so resolved
+# against any of the other cwds (by a tree under test that does not absolutise it) it still lands inside the case
+# directory — a check must not be able to write outside its scratch tree even against a broken tree.
+NCWD = 5
 
 DEFAULT_CAP = 32 * 2 ** 20
 NFILES = 4   # file 0 = project document, files 1..3 = jobs with state point {"a": f}
@@ -321,7 +326,7 @@ GOLDEN = [
         ["op", 1, [], ["set", "y", 2]], ["op", 0, [], ["get"]], ["op", 1, [], ["get"]], ["exit"], ["op", 0, [], ["get"]], ["op", 1, [], ["get"]]]},
     {"cap0": DEFAULT_CAP, "threads": True, "label": "golden-provenance-symlink-unbuffered", "prog": [
         ["open", 0, 1, PROV_CTOR_SYMLINK], ["open", 1, 1, PROV_GET_REL], ["open", 2, 1, PROV_CTOR_DOTDOT], ["op", 0, [], ["set", "a", 1]],
-        ["chdir", 1], ["op", 1, [], ["set", "b", 2]], ["op", 2, [], ["get"]], ["op", 0, [], ["get"]], ["chdir", 3], ["op", 2, [], ["del", "a"]],
+        ["chdir", 1], ["op", 1, [], ["set", "b", 2]], ["op", 2, [], ["get"]], ["op", 0, [], ["get"]], ["chdir", 4], ["op", 2, [], ["del", "a"]],
         ["op", 0, [], ["get"]], ["op", 1, [], ["get"]]]},
     # the lost update of two objects in one buffered block (known finding 1)
     {"cap0": DEFAULT_CAP, "threads": True, "label": "golden-lost-update", "prog": [
@@ -597,7 +602,8 @@ def do_op(doc, path, op, rng_attr):
 def project_by_provenance(signac, project, root, prov):
     """A Project object for the project at `root`, obtained in one of the ways users obtain one."""
     if prov == PROV_INIT:
-        return project
+        # a NEW object every time (two handles must be two objects): init_project on an existing project
+        return signac.init_project(path=root)
     if prov == PROV_GET_ABS:
         return signac.get_project(root)
     if prov == PROV_GET_REL:
@@ -611,8 +617,25 @@ def project_by_provenance(signac, project, root, prov):
     raise AssertionError(prov)
 
 
+def _misplaced(root):
+    """Entries of the case directory that a correct tree never creates (a relative path resolved against the wrong
+    working directory lands here — inside the scratch tree by construction of the layout)."""
+    base = os.path.dirname(root)
+    top = os.path.dirname(os.path.dirname(os.path.dirname(base)))
+    expect = {top: {"d1"}, os.path.join(top, "d1"): {"d2"}, os.path.join(top, "d1", "d2"): {"d3"},
+              base: {"p", "lnk", "elsewhere"}, os.path.join(base, "elsewhere"): {"x"},
+              os.path.join(base, "elsewhere", "x"): {"y"}, os.path.join(base, "elsewhere", "x", "y"): set()}
+    n = 0
+    for d, ok in expect.items():
+        try:
+            n += len(set(os.listdir(d)) - ok)
+        except OSError:
+            n += 1
+    return n
+
+
 def observe(signac, root, ids):
-    files, dirs, stray = [], [], 0
+    files, dirs, stray = [], [], _misplaced(root)
     for name in sorted(os.listdir(root)):
         if name not in (".signac", "workspace", "signac_project_document.json"):
             stray += 1
@@ -649,9 +672,13 @@ def run_case(desc):
     cwd0 = os.getcwd()
     with scratch_dir("c05") as top:
         top = os.path.realpath(top)
-        root = os.path.join(top, "p")
-        os.symlink(top, os.path.join(top, "lnk"))
-        os.chdir(top)
+        base = os.path.join(top, "d1", "d2", "d3")
+        root = os.path.join(base, "p")
+        cwds = [base, root, os.path.join(root, "workspace"), os.path.join(base, "elsewhere"),
+                os.path.join(base, "elsewhere", "x", "y")]
+        os.makedirs(cwds[4])
+        os.symlink(base, os.path.join(base, "lnk"))      # target inside the case directory
+        os.chdir(base)
         project = signac.init_project(path=root)
         _reset_backend(signac, desc["cap0"])
         (JD.enable_multithreading if thr else JD.disable_multithreading)()
@@ -668,7 +695,7 @@ def run_case(desc):
                         objs[it[1]] = pr if it[2] == 0 else pr.open_job(sp_of(it[2]))
                         fid_of[it[1]] = it[2]
                     elif k == "chdir":
-                        os.chdir([os.path.dirname(root), root, os.path.join(root, "workspace"), "/"][it[1]])
+                        os.chdir(cwds[it[1]])
                     elif k == "op":
                         o = objs[it[1]]
                         if it[3][0] == "reset" and not it[2] and n % 2 == 0:
